@@ -488,6 +488,14 @@ func PubX(priv *btcec.PrivateKey) *btcec.FieldVal {
 
 // SelfCheck replays the published vectors through this package.  maxMul
 // bounds in_multiply (0 = all vectors).
+// RepoMathError is returned by SelfCheck when a published BIP324 vector
+// disagrees with a value computed by the REPOSITORY's own secp256k1 /
+// ElligatorSwift code (point multiplication, XSwiftEC decoding, x-only ECDH),
+// as opposed to a value computed by this reference implementation.
+type RepoMathError struct{ Msg string }
+
+func (e *RepoMathError) Error() string { return e.Msg }
+
 func SelfCheck(maxMul int) error {
 	mainnet := [4]byte{0xf9, 0xbe, 0xb4, 0xd9}
 	n := 0
@@ -499,34 +507,37 @@ func SelfCheck(maxMul int) error {
 		fail := func(what string, got, want []byte) error {
 			return fmt.Errorf("bip324ref self-check: vector %d (in_idx=%d): %s mismatch: got %x want %x", vi, v.InIdx, what, trunc(got), trunc(want))
 		}
+		repoFail := func(what string, got, want []byte) error {
+			return &RepoMathError{fail(what, got, want).Error()}
+		}
 		priv, _ := btcec.PrivKeyFromBytes(unhex(v.InPrivOurs))
 		var ours, theirs [64]byte
 		copy(ours[:], unhex(v.InEllswiftOurs))
 		copy(theirs[:], unhex(v.InEllswiftTheirs))
 
 		if x := PubX(priv).Bytes(); !bytes.Equal(x[:], unhex(v.MidXOurs)) {
-			return fail("mid_x_ours (priv*G)", x[:], unhex(v.MidXOurs))
+			return repoFail("mid_x_ours (priv*G)", x[:], unhex(v.MidXOurs))
 		}
 		xo, err := DecodeEllswift(ours)
 		if err != nil {
-			return fmt.Errorf("bip324ref self-check: vector %d: decode ours: %v", vi, err)
+			return &RepoMathError{fmt.Sprintf("bip324ref self-check: vector %d (in_idx=%d): decode ours: %v", vi, v.InIdx, err)}
 		}
 		if b := xo.Bytes(); !bytes.Equal(b[:], unhex(v.MidXOurs)) {
-			return fail("mid_x_ours (decode)", b[:], unhex(v.MidXOurs))
+			return repoFail("mid_x_ours (decode)", b[:], unhex(v.MidXOurs))
 		}
 		xt, err := DecodeEllswift(theirs)
 		if err != nil {
-			return fmt.Errorf("bip324ref self-check: vector %d: decode theirs: %v", vi, err)
+			return &RepoMathError{fmt.Sprintf("bip324ref self-check: vector %d (in_idx=%d): decode theirs: %v", vi, v.InIdx, err)}
 		}
 		if b := xt.Bytes(); !bytes.Equal(b[:], unhex(v.MidXTheirs)) {
-			return fail("mid_x_theirs", b[:], unhex(v.MidXTheirs))
+			return repoFail("mid_x_theirs", b[:], unhex(v.MidXTheirs))
 		}
 		xs, err := ellswift.EllswiftECDHXOnly(theirs, priv)
 		if err != nil {
-			return fmt.Errorf("bip324ref self-check: vector %d: ecdh: %v", vi, err)
+			return &RepoMathError{fmt.Sprintf("bip324ref self-check: vector %d (in_idx=%d): x-only ECDH of the published encoding failed: %v", vi, v.InIdx, err)}
 		}
 		if !bytes.Equal(xs[:], unhex(v.MidXShared)) {
-			return fail("mid_x_shared", xs[:], unhex(v.MidXShared))
+			return repoFail("mid_x_shared", xs[:], unhex(v.MidXShared))
 		}
 		sec, err := SharedSecret(priv, ours, theirs, v.InInitiating)
 		if err != nil {
